@@ -255,6 +255,17 @@ def proved_map(ctx):
     return out
 
 
+_INFO_OBJS = {}
+
+
+def info_of(df, yf):
+    """one shared parserinfo(dayfirst=df, yearfirst=yf) per combination"""
+    from dateutil.parser import parserinfo
+    if (df, yf) not in _INFO_OBJS:
+        _INFO_OBJS[(df, yf)] = parserinfo(dayfirst=df, yearfirst=yf)
+    return _INFO_OBJS[(df, yf)]
+
+
 def flag_choices(code, own):
     """argument values allowed by a theorem's flag code: 0 = effective flag false, 1 = true, * = any"""
     if code == '*':
@@ -288,6 +299,8 @@ def classify_failure(t, d, off, exp, ans, model, got, year_now):
     the symptom the finding describes."""
     import time as _time
     from dateutil import tz
+    if ans == model == "err ParserError" and t['name'].startswith('hms_letters_') and t['name'][-1] in "35":
+        return "D-C02-hms-fraction-token-length"        # exactly: rejected, model agrees, 3 or 5 fraction digits after NNhNNmNN
     if ans != model or not ans.startswith("ok ") or got is None:
         return None
     naive = got.replace(tzinfo=None)
@@ -345,15 +358,23 @@ def oracle(ctx):
             cs = cases(rng, ctx.budget(4000 if named_utc else 12000, 60000 if named_utc else 200000), year_now)
             rows = []
             for t, d, off in cs:
-                # flags: the template's own, or (half of the time) any combination its theorem says the result does not depend on
-                df, yf = t['flags'].get('dayfirst'), t['flags'].get('yearfirst')
+                # EFFECTIVE flags: the template's own, or (half of the time) any combination its theorem says the result does not
+                # depend on; then spread over the two levels the code has — parserinfo(dayfirst=, yearfirst=) and the keyword of
+                # the call (None = take the parserinfo's; an explicit False must override a parserinfo built with True)
+                edf, eyf = bool(t['flags'].get('dayfirst')), bool(t['flags'].get('yearfirst'))
                 dflt = datetime.datetime(2001, 1, 1)
                 if t['name'] in proved and rng.random() < 0.5 and not (t['ydec'] and d.year < 100):     # inside the theorem's domain
                     _, cdf, cyf = proved[t['name']]
-                    df, yf = rng.choice(flag_choices(cdf, df)), rng.choice(flag_choices(cyf, yf))
+                    edf = rng.choice([False, True]) if cdf == '*' else (cdf == '1')
+                    eyf = rng.choice([False, True]) if cyf == '*' else (cyf == '1')
                     dflt = rng.choice(G.DEFAULTS)
                     ctx.count("flags_varied")
-                rows.append((t, d, off, L.Call(G.render(t, d, off), default=dflt, dayfirst=df, yearfirst=yf, tag=t['name'])))
+                idf, iyf = rng.choice([False, False, True]), rng.choice([False, False, True])
+                df = rng.choice([None, edf]) if idf == edf else edf
+                yf = rng.choice([None, eyf]) if iyf == eyf else eyf
+                info = None if (not idf and not iyf and rng.random() < 0.7) else info_of(idf, iyf)
+                ctx.count("levels_info%d%d_kw%s%s" % (idf, iyf, "N" if df is None else int(df), "N" if yf is None else int(yf)))
+                rows.append((t, d, off, L.Call(G.render(t, d, off), default=dflt, dayfirst=df, yearfirst=yf, info=info, tag=t['name'])))
             # every template at the D-C02 witness and at fixed boundary datetimes
             for t in G.TEMPLATES:
                 for d in (datetime.datetime(31, 5, 28, 23, 52, 59), datetime.datetime(99, 12, 31, 12, 0, 0, 999999),
@@ -418,7 +439,8 @@ def _known(kid):
                       and v["detail"].get("impl") is not None and v["detail"].get("impl") == v["detail"].get("model"))
 
 
-KNOWN = {"D-C02-monthname-century": _known("D-C02-monthname-century"),
+KNOWN = {"D-C02-hms-fraction-token-length": _known("D-C02-hms-fraction-token-length"),
+         "D-C02-monthname-century": _known("D-C02-monthname-century"),
          "D-C02-local-zone-named-utc": _known("D-C02-local-zone-named-utc")}
 
 
